@@ -1,6 +1,6 @@
-(* translate/r2c tie, round 4 (5): MockDisplay::draw_pixel (src/mock_display/mod.rs:374-391).  The `panic!` paths of the source
-   end with the display unchanged (the generated definition describes the non-panicking runs only); whenever the model's
-   draw_pixel does not panic, the generated one yields a display representing the model's result. *)
+(* translate/r2c tie, round 4 (5): MockDisplay::draw_pixel (src/mock_display/mod.rs:374-391).  The generated definition is
+   option-valued: None is a Rust panic (`panic!` out of bounds / overdraw, or a panic of get_pixel / set_pixel_unchecked); on
+   representing displays it panics exactly when the model's draw_pixel does and otherwise yields a representing display. *)
 From EG Require Import Base.Prelude Base.Casts Model.Geometry Gen.MockConsts Model.Mockdisplay Gen.SrcGeometry Gen.SrcMock Gen.SrcMock2.
 From EG Require Import Proofs.SrcGeometry Proofs.SrcMock.
 Set Default Timeout 60.
@@ -8,22 +8,39 @@ Set Default Timeout 60.
 Lemma src_display_area_eq : src_DISPLAY_AREA = DISPLAY_AREA.
 Proof. reflexivity. Qed.
 
-Lemma src_draw_pixel_ok s d p c d' : drepr s d ->
+Lemma opt_eta {A} (o : option A) : match o with Some t => Some t | None => None end = o.
+Proof. destruct o; reflexivity. Qed.
+
+(* the model's get_pixel never panics (the index is in range after its bounds test) *)
+Lemma get_pixel_total d p : exists v, get_pixel d p = Ok v.
+Proof.
+  unfold get_pixel. change SIZE with 64. rewrite !Z.geb_leb.
+  destruct (Z.ltb_spec (px p) 0); [eexists; reflexivity|]. destruct (Z.ltb_spec (py p) 0); [eexists; reflexivity|].
+  destruct (Z.leb_spec 64 (px p)); [eexists; reflexivity|]. destruct (Z.leb_spec 64 (py p)); [eexists; reflexivity|]. cbn [orb].
+  unfold arr_get, in_array, NCELLS. change SIZE with 64.
+  rewrite (proj2 (Z.leb_le 0 _)) by lia. rewrite (proj2 (Z.ltb_lt _ (64 * 64))) by lia. eexists; reflexivity.
+Qed.
+
+Lemma src_draw_pixel_rel s d p c : drepr s d ->
   i32_min <= px p <= i32_max -> i32_min <= py p <= i32_max ->
-  draw_pixel d p c = Ok d' -> drepr (src_MockDisplay_draw_pixel s p c) d'.
+  res_rel drepr (src_MockDisplay_draw_pixel s p c) (draw_pixel d p c).
 Proof.
   intros Hr Hx Hy. unfold draw_pixel, src_MockDisplay_draw_pixel. cbv zeta.
   rewrite src_display_area_eq.
   rewrite src_Rectangle_contains_eq by (unfold size_i32, DISPLAY_AREA, i32_max; cbn; change SIZE with 64; lia).
-  destruct Hr as [HR [Ho Hb]].
-  destruct (contains DISPLAY_AREA p); cbn [negb].
-  - pose proof (src_mock_get_pixel_eq s d p (conj HR (conj Ho Hb))) as G. rewrite <- G. cbn [bind].
-    rewrite Ho. destruct (negb (allow_overdraw d) && is_some (src_MockDisplay_get_pixel s p))%bool eqn:E.
-    + replace (match src_MockDisplay_get_pixel s p with Some _ => true | None => false end) with (is_some (src_MockDisplay_get_pixel s p)) by (destruct (src_MockDisplay_get_pixel s p); reflexivity).
-      rewrite E. discriminate.
-    + replace (match src_MockDisplay_get_pixel s p with Some _ => true | None => false end) with (is_some (src_MockDisplay_get_pixel s p)) by (destruct (src_MockDisplay_get_pixel s p); reflexivity).
-      rewrite E. apply src_mock_set_pixel_unchecked_ok; [exact (conj HR (conj Ho Hb)) | assumption..].
-  - rewrite Hb. destruct (negb (allow_oob d)); [discriminate|]. intros [= <-]. exact (conj HR (conj Ho Hb)).
+  pose proof Hr as [HR [Ho Hb]].
+  destruct (contains DISPLAY_AREA p) eqn:EC; cbn [negb].
+  - assert (HI : i32_min <= px p + py p * SIZE <= i32_max).
+    { unfold contains, DISPLAY_AREA in EC. cbn in EC. change SIZE with 64 in *. unfold i32_min, i32_max.
+      repeat (apply andb_prop in EC; destruct EC as [EC ?]).
+      repeat match goal with H : (_ <=? _) = true |- _ => apply Z.leb_le in H | H : (_ <? _) = true |- _ => apply Z.ltb_lt in H end. lia. }
+    pose proof (src_mock_get_pixel_eq s d p Hr) as G.
+    pose proof (src_mock_set_pixel_unchecked_rel s d p (Some c) Hr HI) as U.
+    destruct (get_pixel_total d p) as [cur EG]. rewrite EG in *. cbn [bind].
+    rewrite !opt_eta. rewrite Ho. destruct (allow_overdraw d); cbn [negb andb]; [exact U|].
+    destruct (src_MockDisplay_get_pixel s p) as [cur'|]; cbn in G; [|contradiction]. subst cur'.
+    destruct cur as [x|]; cbn [is_some]; [exact I|exact U].
+  - rewrite Hb. destruct (negb (allow_oob d)); cbn; [exact I|exact Hr].
 Qed.
 
 (* ---- affected_area: `bounding_box().points().zip(self.pixels.iter()).filter_map(..).fold(..)` ---- *)
